@@ -284,7 +284,7 @@ pub fn run(ctx: &Ctx) -> (Outcome, String, Option<bool>) {
     let o = run_sharded(
         ctx,
         "typed-random-programs",
-        ctx.scale(4_000, 100_000),
+        ctx.scale(40_000, 400_000),
         || {
             (crate::vmgen::choices(60), proptest::collection::vec(crate::vmgen::arb_rval(2), 0..5))
                 .prop_map(|(ch, heap)| VmCase { ops: crate::vmgen::build_program(&ch), heap })
@@ -303,7 +303,7 @@ pub fn run(ctx: &Ctx) -> (Outcome, String, Option<bool>) {
     let o = run_sharded(
         ctx,
         "typed-random-with-env",
-        ctx.scale(2_000, 50_000),
+        ctx.scale(15_000, 150_000),
         || (crate::vmgen::choices(40), arb_tx_env()),
         |(ch, (data, seed)), st, _| {
             let ops = crate::vmgen::build_program(ch);
@@ -321,7 +321,7 @@ pub fn run(ctx: &Ctx) -> (Outcome, String, Option<bool>) {
     let o = run_sharded(
         ctx,
         "decodable-bytes",
-        ctx.scale(3_000, 60_000),
+        ctx.scale(20_000, 200_000),
         || {
             prop_oneof![
                 proptest::collection::vec(any::<u8>(), 0..48),
